@@ -649,6 +649,26 @@ theorem C04_refines_create_loop (d d' : Db) (cid : Nat) (cat : Option Str) (name
     d'.frames = d.frames ∧ d'.blocks = d.blocks ∧ l.cid = cid ∧ l.category = cat :=
   createLoop_refines d d' cid cat names l h hb he
 
+/-- C04_refines, loop level, proved for add_packet (container-local form): on success the target loop gains exactly one packet at the
+    end — the given values, the unknown value for the items the packet omits (`packetFor`, which is the packet of
+    `Loop.specAddPacket`: `C04_add_packet_is_spec_packet`) — and every other loop of the CIF, blocks and frames are what they
+    were.  Hypothesis beyond `Inv`: `RowsBelow` (stored row numbers ≤ last_row_num; not yet part of `Inv`).
+    At the level of `abs` this is the documented behaviour even for packets that omit items: F30 (nothing is STORED for them)
+    only shows when the items that did get a value are removed later (`C04_cex_F30`). -/
+theorem C04_refines_add_packet (d d' : Db) (l : LH) (pkt : List (Str × V)) (h : Inv d) (hrb : RowsBelow d l.cid l.loopNum)
+    (hne : pkt ≠ []) (he : addPacketBody l pkt d = .ok (d', ())) :
+    (∀ cid', absLoops d' cid' = (d.loops.filter (fun x => x.cid == cid')).map (fun x =>
+        if x.cid == l.cid && x.loopNum == l.loopNum then
+          { absLoop d x with packets := (absLoop d x).packets ++ [packetFor d l.cid l.loopNum pkt] }
+        else absLoop d x)) ∧
+    d'.frames = d.frames ∧ d'.blocks = d.blocks :=
+  addPacket_refines d d' l pkt h hrb hne he
+
+theorem C04_add_packet_is_spec_packet (norm : Str → Str) (d : Db) (x : LoopRow) (pkt : List (Str × V)) (hn : ItemsNormOK norm d) :
+    packetFor d x.cid x.loopNum pkt =
+      (absLoop d x).names.map (fun n => ((pkt.find? (fun e => e.1 == norm n)).map (·.2)).getD .unk) :=
+  packetFor_eq_spec norm d x pkt hn
+
 /-- `absLoops` is what `abs` shows as the loops of a container -/
 theorem C04_absLoops_is_abs (d : Db) (fuel cid : Nat) (code : Str) : (absContainer d (fuel + 1) cid code).loops = absLoops d cid := by
   simp [absContainer, Container.loops, absLoops]
